@@ -365,11 +365,26 @@ func checkOnce(t *T, prop func(*T)) (err *testError) {
 	if t.tbLog {
 		t.tb.Helper()
 	}
-	defer func() { err = panicToError(recover(), 3) }()
+	defer func() {
+		err = panicToError(recover(), 3)
+		if err != nil && err.isInvalidData() {
+			// skipping does not undo a failure signalled earlier
+			func() {
+				defer func() {
+					if r := recover(); r != nil {
+						err = panicToError(r, 3)
+					}
+				}()
+				t.failOnError()
+			}()
+		}
+	}()
 
-	defer t.cleanup()
-	prop(t)
-	t.failOnError()
+	func() {
+		defer t.cleanup()
+		prop(t)
+	}()
+	t.failOnError() // after cleanup, to not miss failures signalled by the cleanup functions
 
 	return nil
 }
